@@ -40,8 +40,23 @@ func c04Run(w *W) {
 		// parked on a stalled input is not abandoned, it is still reading)
 		pipeStall, pipeRelease = simrt.Choose(n+1), release
 	}
+	hooked := kind == pkBuffer || kind == pkParallelBuffer || kind == pkMap || kind == pkMapParallelBuffer
+	if hooked && (mode == 1 || mode == 3 || mode == 5) && simrt.Choose(2) == 0 {
+		// the source has been used before (advanced once, with the run's
+		// long-lived context) when the construct wraps it. Only for the
+		// constructs that pass a Close on to their input (Buffer,
+		// ParallelBuffer, Map) and only for stops that begin with Close: an
+		// iterator stays bound to the context of its first advance, so for
+		// such a source cancelling the consumer's context is not "the
+		// context passed to the first advance", and the other constructs make
+		// no promise to close their inputs.
+		pipePeek = w.Ctx
+	}
 	p := buildPipe(cctx, kind, n, workers, buf)
-	pipeStall, pipeRelease = -1, nil
+	pipeStall, pipeRelease, pipePeek = -1, nil, nil
+	if p.peeked {
+		w.Fault("source-advanced-before-wrapping")
+	}
 	if p.stalled {
 		w.Fault("stalled-input")
 	}
